@@ -69,7 +69,7 @@ tasks / graph / sorter / stop flag alone, re-creations of the DAG, and "change `
 inductive Moves (t : Nat) : Sess → Sess → Prop
   | refl (s : Sess) : Moves t s s
   | other (s s' s'' : Sess) : Moves t s s' → s''.tasks = s'.tasks → s''.g = s'.g → s''.so = s'.so → s''.stop = s'.stop →
-      Moves t s s''
+      (∃ l, s''.reports = s'.reports ++ l) → Moves t s s''
   | re (s s' : Sess) : Moves t s s' → Moves t s (recreate s' t)
   | setRe (s s' : Sess) (tk' : PTask) (twp' : List Nat) : Moves t s s' → tk'.id = t →
       Moves t s (recreate { s' with tasks := setTask s'.tasks tk', twp := twp' } t)
@@ -79,7 +79,7 @@ inductive Moves (t : Nat) : Sess → Sess → Prop
 theorem Moves.trans {t : Nat} {a b c : Sess} (h1 : Moves t a b) (h2 : Moves t b c) : Moves t a c := by
   induction h2 with
   | refl => exact h1
-  | other s' s'' _ e1 e2 e3 e4 ih => exact Moves.other _ _ _ ih e1 e2 e3 e4
+  | other s' s'' _ e1 e2 e3 e4 e5 ih => exact Moves.other _ _ _ ih e1 e2 e3 e4 e5
   | re s' _ ih => exact Moves.re _ _ ih
   | setRe s' tk' twp' _ hid ih => exact Moves.setRe _ _ tk' twp' ih hid
   | addRe s' kids _ ih => exact Moves.addRe _ _ kids ih
@@ -138,7 +138,7 @@ theorem setupExecute_moves (s : Sess) (t : Nat) : Moves t s (setupExecute s t).1
 
 theorem genExecute_moves (Y : YieldFn) (s : Sess) (tk : PTask) (hid : tk.id = t) : Moves t s (genExecute Y s tk).1 := by
   unfold genExecute
-  have h0 : Moves t s (invoke s tk) := Moves.other s s _ (Moves.refl s) rfl rfl rfl rfl
+  have h0 : Moves t s (invoke s tk) := Moves.other s s _ (Moves.refl s) rfl rfl rfl rfl ⟨[], by simp [invoke]⟩
   simp only []
   split
   · exact h0
@@ -173,7 +173,7 @@ theorem execChain_moves (Y : YieldFn) (F : BodyFn) (s : Sess) (t : Nat) :
     simp only []
     split
     · exact genExecute_moves Y s tk (findTask_id hf)
-    · exact Moves.other s s _ (Moves.refl s) rfl rfl rfl rfl
+    · exact Moves.other s s _ (Moves.refl s) rfl rfl rfl rfl ⟨[], by simp [invoke]⟩
 
 theorem runPhases_moves (Y : YieldFn) (F : BodyFn) (s : Sess) (t : Nat) : Moves t s (runPhases Y F s t).1 := by
   unfold runPhases
@@ -206,10 +206,15 @@ theorem reportChain_frame (s : Sess) (t : Nat) (r : Raised) :
   rw [reportChain_eval]
   cases r <;> simp only [addReport] <;> (try (split <;> (try split))) <;> simp [updateStates_fs]
 
+theorem reportChain_reports (s : Sess) (t : Nat) (r : Raised) :
+    ∃ l, (reportChain t r Generated.processReportOrder s).reports = s.reports ++ l := by
+  rw [reportChain_eval]
+  cases r <;> simp only [addReport] <;> (try (split <;> (try split))) <;> first | exact ⟨_, rfl⟩ | exact ⟨[], by simp⟩
+
 theorem protocol_moves (Y : YieldFn) (F : BodyFn) (s : Sess) (t : Nat) : Moves t s (protocol Y F s t) := by
   unfold protocol
   have h := reportChain_frame (runPhases Y F s t).1 t (runPhases Y F s t).2
-  exact Moves.other s _ _ (runPhases_moves Y F s t) h.1 h.2.1 h.2.2.1 h.2.2.2.1
+  exact Moves.other s _ _ (runPhases_moves Y F s t) h.1 h.2.1 h.2.2.1 h.2.2.2.1 (reportChain_reports _ t _)
 
 /-! ## Graph facts: what `create_dag_from_session` guarantees about the graph it returns -/
 
@@ -470,7 +475,7 @@ theorem Moves.good {t : Nat} {s s' : Sess} (h : Moves t s s') :
     ∀ H, (s.stop = false → Good s H) → (s'.stop = false → Good s' H) := by
   induction h with
   | refl => exact ⟨rfl, id, fun _ h => h⟩
-  | other s' s'' _ e1 e2 e3 e4 ih =>
+  | other s' s'' _ e1 e2 e3 e4 _ ih =>
     refine ⟨by rw [e3]; exact ih.1, fun h => ih.2.1 (by rw [← e4]; exact h), fun H hg hst => ?_⟩
     exact (ih.2.2 H hg (by rw [← e4]; exact hst)).congr e1 e2 e3
   | re s' _ ih =>
@@ -535,7 +540,7 @@ theorem Moves.tasks {t : Nat} {s s' : Sess} (h : Moves t s s') :
     (∀ u x, u ≠ t → findTask s.tasks u = some x → findTask s'.tasks u = some x) := by
   induction h with
   | refl => exact ⟨fun _ h => h, fun _ _ _ h => h⟩
-  | other s' s'' _ e1 _ _ _ ih => rw [e1]; exact ih
+  | other s' s'' _ e1 _ _ _ _ ih => rw [e1]; exact ih
   | re s' _ ih => rw [(recreate_frame s' t).1]; exact ih
   | setRe s' tk' twp' _ hid ih =>
     rw [(recreate_frame _ t).1]
@@ -1040,6 +1045,25 @@ theorem runPhases_not_unchanged (Y : YieldFn) (F : BodyFn) (s : Sess) (t : Nat) 
       rw [htd.2.1]
       simp [invoke, hid, hsp.1.2.1]
   · rw [hse]; right; rfl
+
+theorem stateOf_nv (P : Project) (w : World) (n : Nat) : stateOf P w (nv n) = lookup w.fs n := by
+  unfold stateOf
+  have h1 : isTaskV (nv n) = false := by unfold isTaskV nv; simp
+  have h2 : nv n / 2 = n := by unfold nv; omega
+  simp [h1, h2]
+
+/-- A one-pick loop that is accepted performs exactly `stepOf`. -/
+theorem loop_one {Y : YieldFn} {F : BodyFn} {s : Sess} {t : Nat}
+    (h : (match loop Y F s [t] with | .ok _ => true | .error _ => false) = true) :
+    loop Y F s [t] = .ok (stepOf Y F s t) := by
+  unfold loop at h ⊢
+  split
+  · rename_i h1; simp [h1] at h
+  · split
+    · rename_i h1 h2; simp [h1, h2] at h
+    · split
+      · rename_i h1 h2 _ h3; simp [h1, h2, h3] at h
+      · rfl
 
 end Prov
 end Pytask
